@@ -535,12 +535,16 @@ class Check:
         new_violations = []
         known_hits = {}
         exit_code = 0
+        unreproducible = 0
+        fresh_seen = set()
         rpdir = os.environ.get("HWSIM_REPLAY_DIR", os.path.join(VERIF, "replays"))
         os.makedirs(rpdir, exist_ok=True)
         for old in glob.glob(os.path.join(rpdir, self.prop + "-*.plan")):
             os.unlink(old)
         for cls in sorted(by_class):
             rs = by_class[cls]
+            if cls in fresh_seen:
+                continue
             kf = next((k for k in known if k[0] == self.prop and k[1].search(cls)), None)
             if kf:
                 known_hits[cls] = (kf[2], len(rs))
@@ -553,10 +557,24 @@ class Check:
             c1 = replay_plan(binp, plan, workdir, env_extra=self.env_extra)
             if c1[0] != cls:
                 c1b = replay_plan(binp, plan, workdir, env_extra=self.env_extra)
-                self.log("replay gate failed for seed %d: batch class %s, replay classes %s / %s" % (r.seed, cls, c1[0], c1b[0]))
-                print("ERROR: violation of class %s (seed %d) does not reproduce in a fresh process (got %s)" % (cls, r.seed, c1[0]))
-                exit_code = max(exit_code, 2)
-                continue
+                self.log("replay gate: seed %d, batch class %s, fresh-process classes %s / %s" % (r.seed, cls, c1[0], c1b[0]))
+                if c1[0] and c1[0] == c1b[0] and c1[2] == c1b[2]:
+                    # the plan does violate, reproducibly, but a fresh process names it differently (the batch process carried
+                    # state of earlier runs, e.g. heap layout after an undetected corruption): report under the fresh-process class
+                    if c1[0] in fresh_seen:
+                        continue
+                    fresh_seen.add(c1[0])
+                    cls = c1[0]
+                    r = RunResult(r.seed)
+                    r.viol, r.detail = c1[0], c1[1]
+                    kf = next((k for k in known if k[0] == self.prop and k[1].search(cls)), None)
+                    if kf:
+                        known_hits[cls] = (kf[2], len(rs))
+                        continue
+                else:
+                    print("ERROR: violation of class %s (seed %d) does not reproduce in a fresh process (got %s)" % (cls, r.seed, c1[0]))
+                    unreproducible += 1
+                    continue
             if len(new_violations) < 6:
                 small = minimize(binp, plan, cls, workdir, log=self.log, env_extra=self.env_extra)
             else:
@@ -571,12 +589,15 @@ class Check:
                 f.write("# violation class: %s\n# detail: %s\n# replay: ./check --replay %s\n" % (cls, r.detail.replace("\n", " ")[:500], rp))
                 f.write(small)
             new_violations.append((cls, r.seed, rp, r.detail, len(rs)))
+            fresh_seen.add(cls)
         for cls, (what, n) in sorted(known_hits.items()):
             print("KNOWN-FINDING: property=%s %s [class %s, %d runs]" % (self.prop, what, cls, n))
         for cls, seed, rp, detail, n in new_violations:
             print("VIOLATION property=%s replay=%s" % (self.prop, rp))
             print("  class=%s seed=%d runs=%d detail=%s" % (cls, seed, n, detail[:400]))
-            exit_code = max(exit_code, 1)
+            exit_code = 1
+        if unreproducible and not new_violations:
+            exit_code = 2
 
         # ---------------- evidence
         stats = {}
@@ -626,6 +647,10 @@ class Check:
             "real_components": self.real_components,
             "stubbed_components": self.stubbed_components,
             "workers": self.workers,
+            "planned_runs": self.max_runs if self.max_runs < 10 ** 9 else None,
+            "index_range": "run i uses run_seed(VERIF_SEED, machine, i), i = 0..planned_runs-1; verdict is a function of (VERIF_SEED, tier, tree)",
+            "wall_cap_s": self.wall_budget,
+            "cap_hit": bool(self.max_runs < 10 ** 9 and nruns < self.max_runs),
             "process_classes": ncls,
             "pure_input_evaluations": stats.get("pure_input_evaluations", 0),
         }
